@@ -93,7 +93,7 @@ Inductive fit_out :=
 Inductive case :=
 | KLwr (exact : bool) (nc : nat) (r : list fmat) (a : list fmat) (sigma : fmat)
 | KLd (r : list float) (order : nat) (w : list float) (b : float)
-| KCov (x y : fmat) (nlags : nat) (rxy : list (list (list float)))
+| KCov (x y : fmat) (nlags : option nat) (rxy : list (list (list float)))
 | KMar (exact : bool) (x : fmat) (order : nat) (a : list fmat) (ecov : fmat)
 | KFit (exact : bool) (x1 x2 : list float) (order : option nat) (max_order : nat) (crit : list float) (out : fit_out)
 | KGen (nc N : nat) (a : list fmat) (nz mar : fmat)
@@ -121,7 +121,7 @@ Definition check (c : case) : bool :=
       let '(am, sm) := lwr_recursion q_ops (firstn (S order) rq) in
       vec_close wm w && cl bm (q_of b) && ffinite b
       && vec_close (map Qopp am) w && cl sm (q_of b)
-  | KCov x y nlags rxy => rxy_close (crosscov_vector (qmat x) (qmat y) nlags) rxy
+  | KCov x y nlags rxy => rxy_close (crosscov_vector_kw (qmat x) (qmat y) nlags) rxy
   | KMar exact x order a ecov =>
       let xq := qmat x in
       (let '(az, sz) := MAR_est_LWR_in (fx_ops (length xq)) fx_of_mat xq order in
